@@ -1,8 +1,11 @@
 package props
 
 import (
+	"reflect"
+	"context"
 	"fmt"
 	"net"
+	"sync/atomic"
 	"sort"
 	"strings"
 	"testing"
@@ -40,6 +43,15 @@ type lbWorld struct {
 	clients  []*worlds.Client
 	faults   []lbFault
 	lastFaultAt time.Duration
+	cancelOld   func()
+	reloadedAt  time.Duration
+}
+
+// swapHandler delegates to the currently loaded proxy handler (config reload).
+type swapHandler struct{ cur atomic.Pointer[l4proxy.Handler] }
+
+func (s *swapHandler) Handle(cx *layer4.Connection, next layer4.Handler) error {
+	return s.cur.Load().Handle(cx, next)
 }
 
 type lbFault struct {
@@ -65,6 +77,7 @@ type lbSample struct {
 	Dials     int      `json:"dial_attempts"`
 	DialFails int      `json:"dial_failures"`
 	SimTime   string   `json:"simulated_time"`
+	Reload    string   `json:"config_reload_at,omitempty"`
 }
 
 func buildLB(e *worlds.Env, forC11 bool) (*lbWorld, *lbSample) {
@@ -164,7 +177,10 @@ func buildLB(e *worlds.Env, forC11 bool) (*lbWorld, *lbSample) {
 	if usePassive || L.active {
 		L.h.HealthChecks = hc
 	}
-	if err := L.h.Provision(e.Ctx); err != nil {
+	ctx1, cancel1 := caddy.NewContext(caddy.Context{Context: context.Background()})
+	L.cancelOld = cancel1
+	e.S.OnCleanup(func() { cancel1() })
+	if err := L.h.Provision(ctx1); err != nil {
 		panic(err)
 	}
 	L.h.VerifSetLogger(e.Log)
@@ -177,8 +193,54 @@ func buildLB(e *worlds.Env, forC11 bool) (*lbWorld, *lbSample) {
 		L.maxConns = L.uhcc // unhealthy_connection_count acts as max_connections
 	}
 	e.S.OnCleanup(func() { _ = L.h.Cleanup() })
-	routes := layer4.RouteList{layer4.VerifNewRoute(nil, []layer4.NextHandler{L.h})}
+	sw := &swapHandler{}
+	sw.cur.Store(L.h)
+	routes := layer4.RouteList{layer4.VerifNewRoute(nil, []layer4.NextHandler{sw})}
 	L.w = e.NewTCPWorld(routes, 0)
+	if forC11 && tp.Prob(1, 3, "reload") {
+		// configuration reload: a new handler is provisioned on the same addresses (the
+		// global peer pool keeps the counters), then the old one is cancelled and cleaned up
+		at := time.Duration(tp.Choose(5000, "reload-ms")) * time.Millisecond
+		sample.Reload = at.String()
+		// the old handler needs its own context so that it can be cancelled
+		e.S.Go("reload", func() {
+			time.Sleep(at)
+			e.S.Park("reload")
+			pool2 := l4proxy.UpstreamPool{}
+			for _, u := range L.pool {
+				pool2 = append(pool2, &l4proxy.Upstream{Dial: u.Dial, MaxConnections: u.MaxConnections})
+			}
+			h2 := &l4proxy.Handler{Upstreams: pool2, LoadBalancing: &l4proxy.LoadBalancing{SelectionPolicy: L.rs, TryDuration: caddy.Duration(L.tryDur), TryInterval: caddy.Duration(L.tryInt)}}
+			if L.h.HealthChecks != nil {
+				hc2 := &l4proxy.HealthChecks{}
+				if p := L.h.HealthChecks.Passive; p != nil {
+					hc2.Passive = &l4proxy.PassiveHealthChecks{FailDuration: p.FailDuration, MaxFails: p.MaxFails, UnhealthyConnectionCount: p.UnhealthyConnectionCount}
+				}
+				if a := L.h.HealthChecks.Active; a != nil {
+					hc2.Active = &l4proxy.ActiveHealthChecks{Interval: a.Interval, Timeout: a.Timeout}
+				}
+				h2.HealthChecks = hc2
+			}
+			ctx2, cancel2 := caddy.NewContext(caddy.Context{Context: context.Background()})
+			if err := h2.Provision(ctx2); err != nil {
+				cancel2()
+				return
+			}
+			h2.VerifSetLogger(e.Log)
+			old := sw.cur.Load()
+			sw.cur.Store(h2)
+			L.pool = pool2
+			L.h = h2
+			L.reloadedAt = e.S.Elapsed()
+			// the old configuration goes away
+			if L.cancelOld != nil {
+				L.cancelOld()
+			}
+			_ = old.Cleanup()
+			e.S.OnCleanup(func() { cancel2(); _ = h2.Cleanup() })
+			e.S.Stat("fault_config_reload", 1)
+		})
+	}
 	// fault schedule: outages and recoveries
 	horizon := 6 * time.Second
 	nf := tp.Weighted("n-faults", 2, 3, 3, 2)
@@ -339,6 +401,23 @@ func runC10(t *testing.T, e *worlds.Env, tier string) (bool, any) {
 			}
 			if len(A) < len(ev.Before) {
 				e.S.Stats["probe_select_with_unavailable_member"]++
+			}
+			// availability itself against the stated rule, from the raw per-peer counters:
+			// every peer healthy, below max_fails recent failures, below the connection limit
+			for i, st := range ev.Before {
+				if i >= len(ev.After) || !reflect.DeepEqual(st, ev.After[i]) {
+					continue // counters moved during the call
+				}
+				want := true
+				for _, pr := range st.Peers {
+					if pr.Unhealthy || (L.failDur > 0 && L.maxFails > 0 && pr.Fails >= L.maxFails) || (L.maxConns > 0 && pr.NumConns >= L.maxConns) {
+						want = false
+					}
+				}
+				if want != st.Available {
+					fail("availability", "upstream %d (%s) reports available=%v, but its peers are %+v with max_fails=%d (passive=%v) and connection limit %d", i, st.Dial, st.Available, st.Peers, L.maxFails, L.failDur > 0, L.maxConns)
+					return
+				}
 			}
 			switch {
 			case ev.Result == -2:
@@ -512,6 +591,29 @@ func checkC11(e *worlds.Env, L *lbWorld, sample *lbSample) {
 				}
 			}
 		}
+		// conservation: a peer never counts more connections than there are handlers that have
+		// connected to it and are still running (each handler counts its connection once, from
+		// the moment the whole upstream is dialled until it returns)
+		for ui, st := range ev.Before {
+			for _, p := range st.Peers {
+				bound := 0
+				perG := map[string]bool{}
+				for _, d := range dials {
+					if !d.OK || !isHandler(d.By) || d.Addr != p.Addr || d.Step > ev.Step || perG[d.By] {
+						continue
+					}
+					if x, ok := e.S.ExitStep[d.By]; ok && x < ev.Step {
+						continue
+					}
+					perG[d.By] = true
+					bound++
+				}
+				if p.NumConns > bound {
+					fail("count-leak", "upstream %d peer %s counts %d open connections at %v, but only %d running handlers have a connection to it", ui, p.Addr, p.NumConns, ev.At, bound)
+					return
+				}
+			}
+		}
 		if !ev.Stable {
 			continue
 		}
@@ -625,6 +727,9 @@ func checkC11(e *worlds.Env, L *lbWorld, sample *lbSample) {
 			// multi-peer upstreams may connect one peer and fail the next; "connected" then means nothing
 		}
 		allFailed := !connected
+		if L.reloadedAt > 0 && start <= L.reloadedAt && exit >= L.reloadedAt {
+			continue // the handler's configuration was reloaded under it: its context is cancelled, retries stop
+		}
 		if allFailed && len(es) > 0 {
 			if L.tryDur > 0 && exit-start < L.tryDur {
 				fail("gave-up-early", "handler %s never connected and returned after %v; try_duration is %v", g, exit-start, L.tryDur)
@@ -657,8 +762,17 @@ func checkC11(e *worlds.Env, L *lbWorld, sample *lbSample) {
 		}
 	}
 	// counters at the end
+	handlersLeft := 0
+	for _, g := range e.S.Live() {
+		if isHandler(g) {
+			handlersLeft++
+		}
+	}
 	for ui, u := range L.pool {
 		for _, p := range u.VerifPeers() {
+			if handlersLeft == 0 && p.NumConns != 0 {
+				fail("count-leak", "upstream %d peer %s still counts %d open connections after every handler has returned", ui, p.Addr, p.NumConns)
+			}
 			if p.Fails < 0 || p.NumConns < 0 {
 				fail("negative-counter", "upstream %d peer %s: fails=%d conns=%d at the end", ui, p.Addr, p.Fails, p.NumConns)
 			}
